@@ -173,8 +173,7 @@ def run(ctx: Ctx) -> None:
         if isinstance(e2, ast.Constant) and e2.value == b"\x00":
             return "zero"
         if isinstance(e2, ast.Call) and len(e2.args) == 1:
-            cv = res._callable_value(wp, e.func) if isinstance(e, ast.Call) else None
-            cs = res.callees(wp, e) if isinstance(e, ast.Call) else None
+            cs = res.callees(wp, e2)
             if cs is not None and vfn in cs.funcs:
                 a = norm(e2.args[0])
                 if a == f"len({pk}[1])":
